@@ -416,6 +416,15 @@ def _pin_one_cpu():
         pass
 
 
+def want_report(c):
+    """every third case (by content) runs with --report-no-solution: the flag only adds log lines, it must
+    change neither verdict nor output (a logging path that panics or exits would show here)"""
+    import zlib
+    if "report" in c:
+        return bool(c["report"])
+    return zlib.crc32(json.dumps(c.get("doc"), sort_keys=True, ensure_ascii=True).encode()) % 3 == 0
+
+
 def run_bin(binary, args, timeout=10, stdin=None, pin=False):
     """`pin`: the process sees exactly one CPU (single-core host, container limited to one CPU)"""
     if TIMEOUTS[0] >= 3:
@@ -783,7 +792,8 @@ def lines_e2e_cde(cases, workdir, stream, binary):
             if os.path.exists(outp):
                 os.remove(outp)
             prf = ["--possible-rooms-field", "possible_rooms"] if c.get("prf") else []
-            rc, so, se, to = run_bin(binary, cde_args(c["opts"], c["rooms"], c["threads"]) + prf + [inp, outp])
+            rep = ["--report-no-solution"] if want_report(c) else []
+            rc, so, se, to = run_bin(binary, cde_args(c["opts"], c["rooms"], c["threads"]) + rep + prf + [inp, outp])
             bad = to or rc not in (0, 1, 65) or "panicked" in se
             out.append(line("direct", ["C10", "C15"], ok=not bad, what=f"exit {rc} timeout {to} stderr tail: {se[-300:]}", case=i, stream=stream, nontrivial=False))
             if rc == 65 and "only possible with 1 or more participants" in se:
@@ -978,6 +988,8 @@ def lines_cli_simple(cases, workdir, stream, binary):
             args.append(inp)
             if c["output"]:
                 args.append(outp)
+            if want_report(c):
+                args = ["--report-no-solution"] + args
             rc, so, se, to = run_bin(binary, args, pin=bool(c.get("pin")))
             if c.get("dual"):
                 # a participant listed as instructor of two courses: outside the validity the properties
@@ -1552,6 +1564,8 @@ def lines_cli_main(cases, workdir, stream, binary):
             if c["output"]:
                 args.append(outp)
             # without --num-threads the process is pinned to one CPU: the default worker count is then 1
+            if want_report(c):
+                args = ["--report-no-solution"] + args
             rc, so, se, to = run_bin(binary, args, pin=c["threads"] is None, timeout=20)
             panicked = "panicked" in se
             wrote = os.path.exists(outp)
